@@ -1,6 +1,7 @@
 import WsProofs.Lemmas.EndpointStep
 import WsProofs.Props.TieConfig
 import WsProofs.Props.C07
+import WsProofs.Lemmas.GlobalPanic
 
 /-! # `set_config` on a live connection
 
@@ -67,6 +68,65 @@ theorem reachable_is_reachableCfg {w : World} (h : w.Reachable) : ReachableCfg w
       simp only [World.run]
       exact ih _ (.step op hw (hops op (by simp))) (fun o ho => hops o (by simp [ho]))
   exact this ops w0 (.init hinit) hops
+
+/-- the collector invariant behind "no panic site is reachable" does not depend on the
+configuration: it survives every `set_config` -/
+theorem setConfig_cinv {w : World} (h : CInv w) (f : Config → Config) : CInv (w.setConfig f).1 := by
+  have hk := (Tie.Tie_setConfig_keeps_data f w).2.2.1
+  unfold CInv at *
+  rw [hk]; exact h
+
+theorem reachableCfg_cinv {w : World} (h : ReachableCfg w) : CInv w := by
+  induction h with
+  | init hi => exact init_cinv _ hi
+  | step op _ hop ih => exact step_cinv _ op ih hop
+  | setcfg f _ _ _ ih => exact setConfig_cinv ih f
+
+/-- C07 under a changing configuration: after any history of calls and admissible `set_config`s,
+no call panics — reading (under the same hypothesis on the read script as `C07_read_no_panic`),
+the write side, and `set_config` itself with a valid configuration -/
+theorem C07_no_panic_under_set_config {w : World} (h : ReachableCfg w) (op : Op) (hop : Op.noRaw op)
+    (hdef : ∀ bs, w.t.rdDef ≠ .data bs) : (w.step op).2.isPanic = false := by
+  by_cases hr : op = .read
+  · subst hr
+    show (Out.msg w.read.2).isPanic = false
+    cases hres : w.read.2 with
+    | ok m => rfl
+    | err e => rfl
+    | panic s => exact absurd hres (read_np w (reachableCfg_cinv h) hdef s)
+  · -- the write side does not depend on how the state was reached
+    have key : ∀ (w : World) (op : Op), Op.noRaw op → op ≠ .read → (w.step op).2.isPanic = false := by
+      intro w op hop hw
+      cases op with
+      | read => exact absurd rfl hw
+      | flush =>
+        show (Out.unit w.flush.2).isPanic = false
+        by_cases hnt : w.c.state = .terminated
+        · rw [terminated_flush w hnt]; rfl
+        · rcases (flush_FSC hnt).kind with ⟨a, h⟩ | ⟨k, h⟩ | h <;> rw [h] <;> rfl
+      | close c =>
+        show (Out.unit (w.close c).2).isPanic = false
+        by_cases hnt : w.c.state = .terminated
+        · rw [terminated_close w c hnt]; rfl
+        · obtain ⟨w0, _, _, _, _, _, _, _, F⟩ := close_FSC (w := w) c hnt
+          rcases F.kind with ⟨a, h⟩ | ⟨k, h⟩ | h <;> rw [h] <;> rfl
+      | write m =>
+        show (Out.unit (w.write m).2).isPanic = false
+        by_cases hs : w.c.state = .active
+        · cases m with
+          | frame f => exact absurd hop (by simp [Op.noRaw])
+          | _ =>
+            rcases write_active_kind w _ hs with h | ⟨k, h⟩ | ⟨g, h⟩ | h <;> rw [h] <;> rfl
+        · rcases (write_refused w m hs).2 with h | h <;> rw [h] <;> rfl
+    exact key w op hop hr
+
+/-- and `set_config` panics exactly for the documented invalid configuration -/
+theorem C07_set_config_panics_iff (w : World) (f : Config → Config) :
+    (w.setConfig f).2 = .panic .configInvalid ↔ (f w.c.cfg).maxw ≤ (f w.c.cfg).wbuf := by
+  unfold World.setConfig configValid
+  by_cases h : (f w.c.cfg).maxw > (f w.c.cfg).wbuf
+  · simp [h]
+  · simp [h]; omega
 
 /-! ### non-vacuity: a read, then the bound lowered to 10 bytes above a write buffer of 0, then a write -/
 
